@@ -93,6 +93,9 @@ class Checker:
                 raise LvsModelError(f"Malformed node id {cur}")
             if par is not None and node.parent != par:
                 raise LvsModelError(f"Node {cur} has a wrong parent")
+            if par is None and node.parent is not None:
+                # Backtracking stops when it steps above the root
+                raise LvsModelError(f"Root node {cur} has a parent")
             for ve in node.v_edges:
                 if ve.dest is None or not ve.value:
                     raise LvsModelError(f"Node {cur} has a malformed edge")
